@@ -378,6 +378,7 @@ pub fn static_ops(fam: u8, n0: usize, len: usize, sop: u8) {
         assert!(s.t.as_str().as_ptr() == self_ptr(&s.t), "[C10] short static text is not inline");
     }
     check_handle(&s.t, &s.m);
+    let mut extra_reqs = 0;
     shim::forbid(true);
     match sop {
         0 => {
@@ -391,8 +392,9 @@ pub fn static_ops(fam: u8, n0: usize, len: usize, sop: u8) {
         3 => ops::apply(CLEAR, 0, false, &mut s.t, &mut s.m),
         4 => {
             shim::forbid(false);
-            let mut d = LeanString::from("ZZZZZZZZZZZZZZZZZZZZ");
+            let mut d = LeanString::from("ZZZZZZZZZZZZZZZZZZZZ"); // (the destination's own buffer: 1 request)
             shim::forbid(true);
+            extra_reqs = 1;
             d.clone_from(&s.t);
             assert!(n0 <= 16 || d.as_str().as_ptr() == arr, "[C10] clone_from of a static string does not point at the caller's bytes");
             check_handle(&d, &s.m);
@@ -401,7 +403,7 @@ pub fn static_ops(fam: u8, n0: usize, len: usize, sop: u8) {
         _ => {}
     }
     shim::forbid(false);
-    assert!(shim::snap().reqs == before.reqs, "[C10] clone/pop/truncate/clear of a static string issued an allocator request");
+    assert!(shim::snap().reqs == before.reqs + extra_reqs, "[C10] clone/pop/truncate/clear of a static string issued an allocator request");
     if n0 > 16 {
         assert!(s.t.as_str().as_ptr() == arr, "[C10] static string moved by clone/pop/truncate/clear");
     }
